@@ -163,4 +163,8 @@ pub struct ReplayFile {
     pub scenario: Scenario,
     pub violation: Violation,
     pub replay_cmd: String,
+    /// build configuration of the harness+library that produced it: "checked" (overflow checks and debug
+    /// assertions on) or "shipped" (both off); `replay` re-executes under the same one
+    #[serde(default)]
+    pub profile: String,
 }
